@@ -188,7 +188,7 @@ def impl_args(case):
         feats = {'dense': X, 'shape': [n, d]}
     extra = {'prior_factors': case['prior_factors']} if case.get('prior_factors') else {}
     return dict(extra, adjacency={'shape': [n, n], 'coo': case['triples'], 'dtype': 'float', 'fmt': case['fmt']},
-                features=feats, out=case['out'], use_bias=case['use_bias'], norm=case['norm'],
+                features=feats, out=case['out'], use_bias=case['use_bias'], norm=case['norm'], norm_spelling=['lower', 'title', 'lower', 'upper'][(n + d + len(case['triples'])) % 4],
                 self_embeddings=case['self_embeddings'], act=case['act'], weight=case['weight'], bias=case['bias'],
                 **{'in': d})
 
@@ -209,7 +209,7 @@ def new_case(rng, fam, n, edges, directed, combo):
     b = [dyadic(rng, -2, 2) for _ in range(o)]
     prior = [rng.choice([1, 2, 3, 5]) for _ in triples] if (len(triples) >= 2 and rng.random() < 0.15) else None
     return dict(prior_factors=prior, family=fam, n=n, triples=[[i, j, float(w)] for i, j, w in triples], d=d, out=o, X=X, sparse=sparse,
-                weight=W, bias=b, norm=norm, self_embeddings=self_emb, use_bias=use_bias, act=act,
+                weight=W, bias=b, norm=norm, norm_spelling=rng.choice(['lower', 'lower', 'title', 'upper']), self_embeddings=self_emb, use_bias=use_bias, act=act,
                 fmt=rng.choice(['csr', 'csr', 'csr_unsorted']), weights_kind=kind)
 
 
